@@ -14,6 +14,9 @@ MCCfgAll == [Relays -> {C(m, k) : m \in {0, 2}, k \in {"none", "config"}}]
 Defects(a) == (IF a.feeZero THEN 1 ELSE 0) + (IF ~a.tsOk THEN 1 ELSE 0) + (IF a.sig # "valid" THEN 1 ELSE 0)
 MCAnswersSingle == {a \in Bids : Defects(a) <= 1} \cup {NoBidAnswer, ErrorAnswer}
 MCAnswersAll == Answers
+\* quick: every clean bid, and every single defect on the bids of the highest value
+MCTop == CHOOSE v \in Values : \A w \in Values : w <= v
+MCAnswersLean == {a \in Bids : Defects(a) = 0 \/ (Defects(a) = 1 /\ a.val = MCTop)} \cup {NoBidAnswer, ErrorAnswer}
 MCAnswersClean == {a \in Bids : Defects(a) = 0} \cup {NoBidAnswer, ErrorAnswer}
 MCCfgPair == { <<C(0, "config"), C(2, "none")>> }
 =============================================================================
